@@ -213,6 +213,9 @@ func (r *Reporter) Finish() int {
 		}
 		newV++
 		dir := filepath.Join(VerifDir, "replays", r.Prop)
+		if d := os.Getenv("VERIF_REPLAYS"); d != "" { // runs against scratch worktrees keep /verif/replays clean
+			dir = filepath.Join(d, r.Prop)
+		}
 		os.MkdirAll(dir, 0o755)
 		path := filepath.Join(dir, sigHash(sig)+".json")
 		b, _ := json.MarshalIndent(map[string]interface{}{"property": r.Prop, "signature": sig, "what": v.What, "case": v.Replay}, "", " ")
